@@ -23,7 +23,13 @@ import (
 // third-party files. After the call the harness observes: error?, source path present?, source content
 // original?, destination reads the original content?, third-party files intact?
 //
-//	E <op 0=CopyFile 1=MoveFile> <kind 0..9> <otherdev> <srcmissing> <nonempty> <ok> <srcpresent> <srcorig> <dstorig> <thirdok> <size> <variant>
+// Kinds 10..13 provoke a real fault without hooks: destination /dev/full (create succeeds, every write
+// fails with ENOSPC), a symlink to /dev/full, a destination directory without write permission, an
+// unreadable source (the last two are skipped when running as root, which ignores permission bits).
+// The source content comes from content classes chosen independently of the size (random, all zeros,
+// zero tails / heads around 4 KiB and 32 KiB boundaries, alternating zero blocks, all 0xFF).
+//
+//	E <op 0=CopyFile 1=MoveFile> <kind 0..13> <otherdev> <srcmissing> <nonempty> <ok> <srcpresent> <srcorig> <dstorig> <thirdok> <size> <variant> <contentclass>
 //
 // Go-side oracle (the property statement itself): "VIOL <reason> <same fields>".
 func main() { hk.Main("C18", runC18) }
@@ -39,11 +45,77 @@ const (
 	kParentMissing
 	kParentFile
 	kSymlinkToOther
-	nKinds
+	nKinds   // ordinary kinds end here
+	kDevFull = iota - 1
+	kSymlinkDevFull
+	kNoWriteDir
+	kSrcUnreadable
 )
 
 var kindNames = []string{"missing", "other-file", "same-path", "dot-spelling", "symlink-to-src", "hardlink", "directory",
-	"parent-missing", "parent-is-file", "symlink-to-other"}
+	"parent-missing", "parent-is-file", "symlink-to-other", "dev-full", "symlink-to-dev-full", "unwritable-dir", "unreadable-source"}
+
+// content classes
+var classNames = []string{"random", "zeros", "ff",
+	"zero-tail@32K-1", "zero-tail@32K", "zero-tail@32K+1", "zero-tail@4K-1", "zero-tail@4K", "zero-tail@4K+1",
+	"zero-head-half", "zero-head-to-last-32K",
+	"alt-zero-first-4K", "alt-data-first-4K", "alt-zero-first-32K", "alt-data-first-32K"}
+
+// makeContent builds n bytes of the given class; rnd yields the non-zero ("data") bytes.
+func makeContent(class, n int, rnd func([]byte)) []byte {
+	b := make([]byte, n)
+	data := func(lo, hi int) {
+		if lo < 0 {
+			lo = 0
+		}
+		if hi > n {
+			hi = n
+		}
+		if lo >= hi {
+			return
+		}
+		rnd(b[lo:hi])
+		for i := lo; i < hi; i++ { // "data" never contains a zero byte, so zero runs are exactly where the class puts them
+			if b[i] == 0 {
+				b[i] = 0xA5
+			}
+		}
+	}
+	lastBlock := func(bs int) int {
+		if n == 0 {
+			return 0
+		}
+		return (n - 1) / bs * bs
+	}
+	switch class {
+	case 0:
+		rnd(b)
+	case 1:
+	case 2:
+		for i := range b {
+			b[i] = 0xFF
+		}
+	case 3, 4, 5:
+		data(0, lastBlock(32768)+class-4)
+	case 6, 7, 8:
+		data(0, lastBlock(4096)+class-7)
+	case 9:
+		data(n/2, n)
+	case 10:
+		data(lastBlock(32768), n)
+	case 11, 12, 13, 14:
+		bs := 4096
+		if class >= 13 {
+			bs = 32768
+		}
+		for off, k := 0, 0; off < n; off, k = off+bs, k+1 {
+			if (k%2 == 1) == (class%2 == 1) {
+				data(off, off+bs)
+			}
+		}
+	}
+	return b
+}
 
 func isAlias(k int) bool {
 	return k == kSamePath || k == kDotSpelling || k == kSymlinkToSrc || k == kHardlink
@@ -118,11 +190,34 @@ func runC18(e *hk.Env) (retErr error) {
 		os.Remove(p)
 	}
 
-	sizes := []int{0, 1, 4096, 1 << 20}
-	nRandomSizes := 12
+	sizes := []int{0, 1, 10, 4096, 32768, 32769, 65536, 1 << 20}
+	nRandomSizes := 4
 	if e.Thorough() {
-		sizes = []int{0, 1, 2, 4095, 4096, 4097, 65536, 1 << 20, 4 << 20}
-		nRandomSizes = 60
+		sizes = []int{0, 1, 2, 10, 4095, 4096, 4097, 32767, 32768, 32769, 65535, 65536, 65537, 1 << 20, 1<<20 + 1, 4 << 20}
+		nRandomSizes = 24
+	}
+	// may /dev/full be used? it must be the character device 1:7 on a file system other than the scratch
+	// roots' (MoveFile would otherwise rename over it)
+	devFullOK := false
+	{
+		var st syscall.Stat_t
+		da, ok1 := devOf(rootA)
+		dd, ok2 := devOf("/dev")
+		if err := syscall.Stat("/dev/full", &st); err == nil && st.Mode&syscall.S_IFMT == syscall.S_IFCHR && st.Rdev == 0x107 && ok1 && ok2 && da != dd {
+			devFullOK = true
+			if rootB != "" {
+				if db, ok := devOf(rootB); !ok || db == dd {
+					devFullOK = false
+				}
+			}
+		}
+	}
+	e.Stats["dev_full_available"] = devFullOK
+	isRoot := os.Geteuid() == 0
+	if isRoot {
+		e.Stats["permission_scenarios"] = "skipped: running as root, permission bits are not enforced"
+	} else {
+		e.Stats["permission_scenarios"] = "run"
 	}
 	r := e.Rng.Fork()
 	for i := 0; i < nRandomSizes; i++ {
@@ -134,18 +229,23 @@ func runC18(e *hk.Env) (retErr error) {
 	viol := 0
 	byKind := map[string]int{}
 	byOutcome := map[string]int{}
-	content := func(n int) []byte {
-		b := make([]byte, n)
+	fill := func(b []byte) {
+		n := len(b)
 		for i := 0; i < n; i += 8 {
 			v := r.U64()
 			for j := 0; j < 8 && i+j < n; j++ {
 				b[i+j] = byte(v >> (8 * j))
 			}
 		}
+	}
+	content := func(n int) []byte {
+		b := make([]byte, n)
+		fill(b)
 		return b
 	}
+	byClass := map[string]int{}
 
-	one := func(op, kind int, other, srcMissing bool, size, variant int) {
+	one := func(op, kind int, other, srcMissing bool, size, variant, class int) {
 		caseNo++
 		base := filepath.Join(rootA, fmt.Sprintf("c%d", caseNo))
 		dstBase := base
@@ -165,7 +265,8 @@ func runC18(e *hk.Env) (retErr error) {
 		}
 		srcDir := filepath.Join(base, "s")
 		src := filepath.Join(srcDir, "src file.dat")
-		orig := content(size)
+		orig := makeContent(class, size, fill)
+		byClass[classNames[class]]++
 		origSum := sha256.Sum256(orig)
 		if !srcMissing {
 			if err := os.WriteFile(src, orig, 0o644); err != nil {
@@ -217,6 +318,19 @@ func runC18(e *hk.Env) (retErr error) {
 			target := filepath.Join(dstDir, "other.dat")
 			dst = filepath.Join(dstDir, "dst.lnk")
 			setupOK = os.WriteFile(target, otherContent, 0o644) == nil && os.Symlink(target, dst) == nil
+		case kDevFull:
+			dst = "/dev/full"
+		case kSymlinkDevFull:
+			dst = filepath.Join(dstDir, "full.lnk")
+			setupOK = os.Symlink("/dev/full", dst) == nil
+		case kNoWriteDir:
+			ro := filepath.Join(dstDir, "ro")
+			dst = filepath.Join(ro, "dst.dat")
+			setupOK = os.Mkdir(ro, 0o555) == nil
+			defer os.Chmod(ro, 0o755)
+		case kSrcUnreadable:
+			dst = filepath.Join(dstDir, "dst.dat")
+			setupOK = os.Chmod(src, 0) == nil
 		}
 		if !setupOK {
 			e.Count("setup_failed", 1)
@@ -240,10 +354,18 @@ func runC18(e *hk.Env) (retErr error) {
 		}()
 
 		ok := callErr == nil && panicked == ""
+		if kind == kSrcUnreadable {
+			os.Chmod(src, 0o644) // harmless if MoveFile renamed it away
+			os.Chmod(dst, 0o644)
+		}
 		_, lerr := os.Lstat(src)
 		srcPresent := lerr == nil
 		sameAsOrig := func(p string) bool {
 			if srcMissing {
+				return false
+			}
+			// only regular files are read (/dev/full reads as endless zeros)
+			if st, err := os.Stat(p); err != nil || !st.Mode().IsRegular() {
 				return false
 			}
 			b, err := os.ReadFile(p)
@@ -256,7 +378,7 @@ func runC18(e *hk.Env) (retErr error) {
 		thirdOK := err1 == nil && err2 == nil && bytes.Equal(t1, thirdContent) && bytes.Equal(t2, thirdContent)
 
 		fields := []string{strconv.Itoa(op), strconv.Itoa(kind), b2s(other), b2s(srcMissing), b2s(size > 0),
-			b2s(ok), b2s(srcPresent), b2s(srcOrig), b2s(dstOrig), b2s(thirdOK), strconv.Itoa(size), strconv.Itoa(variant)}
+			b2s(ok), b2s(srcPresent), b2s(srcOrig), b2s(dstOrig), b2s(thirdOK), strconv.Itoa(size), strconv.Itoa(variant), strconv.Itoa(class)}
 		e.Case(append([]string{"E"}, fields...)...)
 		byKind[[]string{"CopyFile", "MoveFile"}[op]+"/"+kindNames[kind]+map[bool]string{false: "", true: "/other-device"}[other]+map[bool]string{false: "", true: "/missing-source"}[srcMissing]]++
 		byOutcome[fmt.Sprintf("ok=%v src_present=%v src_orig=%v dst_orig=%v", ok, srcPresent, srcOrig, dstOrig)]++
@@ -289,32 +411,67 @@ func runC18(e *hk.Env) (retErr error) {
 				msg = strings.ReplaceAll(msg, dstBase, "<B>")
 			}
 			e.Sample("samples", map[string]any{"op": []string{"CopyFile", "MoveFile"}[op], "dest": kindNames[kind], "other_device": other,
-				"size": size, "error": msg, "src_present": srcPresent, "src_orig": srcOrig, "dst_orig": dstOrig}, 8)
+				"size": size, "content": classNames[class], "error": msg, "src_present": srcPresent, "src_orig": srcOrig, "dst_orig": dstOrig}, 8)
 		}
 	}
 
 	variant := 0
+	dataMoving := map[int]bool{kMissing: true, kOther: true, kSymlinkToOther: true}
 	for _, size := range sizes {
-		for op := 0; op < 2; op++ {
-			for kind := 0; kind < nKinds; kind++ {
-				variant++
-				one(op, kind, false, false, size, variant)
-				if otherDev && kind != kSamePath && kind != kDotSpelling && kind != kHardlink {
-					one(op, kind, true, false, size, variant)
-				}
+		for class := range classNames {
+			if size == 0 && class > 0 {
+				continue
 			}
-			// missing source
-			for _, kind := range []int{kMissing, kOther} {
-				one(op, kind, false, true, size, variant)
-				if otherDev {
-					one(op, kind, true, true, size, variant)
+			for op := 0; op < 2; op++ {
+				for kind := 0; kind < nKinds; kind++ {
+					// every class where bytes are transferred; the other kinds with random and all-zero content
+					if class > 1 && !dataMoving[kind] {
+						continue
+					}
+					// big files: the boundary classes only on the plain "missing destination" kind (quick tier)
+					if class > 2 && size >= 1<<20 && kind != kMissing && !e.Thorough() {
+						continue
+					}
+					variant++
+					one(op, kind, false, false, size, variant, class)
+					if otherDev && kind != kSamePath && kind != kDotSpelling && kind != kHardlink {
+						one(op, kind, true, false, size, variant, class)
+					}
 				}
-			}
-			if retErr != nil {
-				return retErr
+				if class <= 1 {
+					// missing source
+					for _, kind := range []int{kMissing, kOther} {
+						one(op, kind, false, true, size, variant, class)
+						if otherDev {
+							one(op, kind, true, true, size, variant, class)
+						}
+					}
+				}
+				// real faults (non-empty content: an empty copy performs no write)
+				if size > 0 && (class <= 2 || size <= 65536) {
+					if devFullOK {
+						one(op, kDevFull, true, false, size, variant, class)
+						one(op, kSymlinkDevFull, false, false, size, variant, class)
+						if otherDev {
+							one(op, kSymlinkDevFull, true, false, size, variant, class)
+						}
+					}
+					if !isRoot && class <= 1 {
+						for _, kind := range []int{kNoWriteDir, kSrcUnreadable} {
+							one(op, kind, false, false, size, variant, class)
+							if otherDev {
+								one(op, kind, true, false, size, variant, class)
+							}
+						}
+					}
+				}
+				if retErr != nil {
+					return retErr
+				}
 			}
 		}
 	}
+	e.Stats["by_content_class"] = byClass
 	e.Stats["cases"] = caseNo
 	e.Stats["by_scenario"] = byKind
 	e.Stats["by_outcome"] = byOutcome
